@@ -22,7 +22,7 @@ func init() {
 	ruleText["R15.1"] = "in each function calling (*Interpreter).run: a run of root code dominates the genGlobalVars call, which dominates the run of its result, which dominates the range loop running the start list; the append of main to the start list is dominated by every other append to it and dominates that loop (or the return of the program)"
 	ruleText["R15.2"] = "every append to the start list built by (*Interpreter).cfg is of the form list = append(list, n) under a test of the function name against \"init\""
 	ruleText["R15.3"] = "in importSrc, the test of Interpreter.srcPkg[importPath] with its early return dominates every io/fs call and every run"
-	ruleText["R15.5"] = "in getVarDependencies the kind of an identifier's parent node is tested only against selectorExpr (and keyValueExpr only together with a struct-literal test); no other parent kind makes an identifier be ignored"
+	ruleText["R15.5"] = "in getVarDependencies the kind of an identifier's parent node is tested only against selectorExpr, keyValueExpr (only together with a struct-literal test) and fieldExpr (only together with 'not the last child', i.e. the declared names of a type expression, not its type); no other parent kind makes an identifier be ignored"
 	ruleText["R15.6"] = "in genGlobalVarDecl, from the statement appending a variable to the ordered list the head of the innermost enclosing loop is not reachable without leaving that loop: the earliest ready variable is taken first, then the scan restarts"
 	ruleText["R15.7"] = "for every case of gta's switch over node kinds that creates variable symbols (directly or in a directly called in-package function), each &symbol{kind: varSym} literal records the declaration node (and the global flag if getVarDependencies tests it), in the literal or by an assignment in the same case"
 	ruleText["R15.9"] = "getVarDependencies stores nothing outside its own locals (same analysis as C05/R05.6): no dependency set is remembered across variables in a map or field supplied by the caller"
@@ -46,6 +46,7 @@ func runC15(c *Config, r *Report) {
 	c15R5(ic, r)
 	c15R13(ic, r)
 	c15R14(ic, r)
+	c15R15(ic, r)
 	c15R6(ic, r)
 	c15R7(ic, r)
 	c15R8(ic, r)
@@ -537,6 +538,32 @@ func c15R4(ic *IC, r *Report) {
 // (operand, argument, map-literal key, index, ...) does. The collector may therefore skip an
 // identifier because of the kind of its parent only for selectors, or for key:value pairs
 // when it also establishes that the literal is a struct literal.
+
+// fieldNameTest reports whether cond tests "the parent is a field expression and the identifier
+// is not its type": the node-kind constant fieldExpr together with a position test (lastChild,
+// childPos or an index into the parent's children).
+func fieldNameTest(ic *IC, cond ast.Expr) bool {
+	kind, pos := false, false
+	ast.Inspect(cond, func(n ast.Node) bool {
+		switch y := n.(type) {
+		case *ast.Ident:
+			if c, ok := ic.Info.Uses[y].(*types.Const); ok && c.Name() == "fieldExpr" {
+				kind = true
+			}
+		case *ast.CallExpr:
+			if o := calleeOf(ic.Info, y); o != nil && (o.Name() == "lastChild" || o.Name() == "childPos") {
+				pos = true
+			}
+		case *ast.IndexExpr:
+			if v := selField(ic.Info, y.X); v != nil && v.Name() == "child" {
+				pos = true
+			}
+		}
+		return true
+	})
+	return kind && pos
+}
+
 func c15R5(ic *IC, r *Report) {
 	fi := ic.fn(r, "getVarDependencies")
 	if fi == nil {
@@ -629,8 +656,23 @@ func c15R5(ic *IC, r *Report) {
 	if _, ok := kinds["selectorExpr"]; !ok {
 		r.Fail("R15.5", "getVarDependencies/skip:selectorExpr", ic.pos(fi.Decl.Pos()), "the collector does not exclude the selected name of a selector: x.f would create a false dependency on a package variable f (reported as a variable definition loop)")
 	}
+	// a name (not the type, which is the last child) of a field expression declares a field, a
+	// method or a parameter inside a type expression: it refers to nothing
+	fieldNameOnly := false
+	for _, body := range bodies {
+		ast.Inspect(body, func(n ast.Node) bool {
+			ifs, ok := n.(*ast.IfStmt)
+			if !ok {
+				return true
+			}
+			if fieldNameTest(ic, ifs.Cond) {
+				fieldNameOnly = true
+			}
+			return true
+		})
+	}
 	for _, k := range sortedKeys(kinds) {
-		ok := k == "selectorExpr" || (k == "keyValueExpr" && mentionsStruct)
+		ok := k == "selectorExpr" || (k == "keyValueExpr" && mentionsStruct) || (k == "fieldExpr" && fieldNameOnly)
 		r.Check(ok, "R15.5", "getVarDependencies/skip:"+k, ic.pos(kinds[k]), "identifiers are ignored by parent kind only where they cannot refer to a variable",
 			"the dependency collector treats identifiers differently when their parent node is a "+k+": an identifier in that position (for instance the key of a map literal, m = map[K]V{k: 1}) does refer to a package variable, which is then not initialised before its user")
 	}
@@ -1542,4 +1584,33 @@ func c15R14(ic *IC, r *Report) {
 	if n == 0 {
 		r.Errorf("R15.14: no case testing varSym found in getVarDependencies")
 	}
+}
+
+func init() {
+	ruleText["R15.15"] = "the names declared inside a type expression of an initialiser (fields of a struct type, methods of an interface type, parameters of a function type) are not references: the dependency collector ignores an identifier whose parent is a field expression unless it is its last child (the type)"
+}
+
+// c15R15: found through the round-6 report on C15 (E2). var c5 = struct{ port int }{port: ...}
+// followed by var port = ... was initialised after port (false dependency), and two such
+// declarations naming each other's fields were rejected as a variable definition loop.
+func c15R15(ic *IC, r *Report) {
+	fi := ic.fn(r, "getVarDependencies")
+	if fi == nil {
+		return
+	}
+	found := ""
+	ast.Inspect(fi.Decl.Body, func(n ast.Node) bool {
+		ifs, ok := n.(*ast.IfStmt)
+		if !ok {
+			return true
+		}
+		if fieldNameTest(ic, ifs.Cond) && len(ifs.Body.List) > 0 {
+			if rs, ok := ifs.Body.List[len(ifs.Body.List)-1].(*ast.ReturnStmt); ok && len(rs.Results) == 1 && types.ExprString(rs.Results[0]) == "false" {
+				found = ic.pos(ifs.Pos())
+			}
+		}
+		return true
+	})
+	r.Check(found != "", "R15.15", "getVarDependencies/declared-names-of-type-expressions-ignored", ic.pos(fi.Decl.Pos()), "names of field expressions are skipped ("+found+")",
+		"getVarDependencies looks up every identifier of an initialiser in the package scope, the names declared by a type expression included: var c5 = struct{ port int }{port: f()} depends on a later var port (initialised in the wrong order), and var a = struct{ b int }{...}; var b = struct{ a int }{...} is rejected as a variable definition loop")
 }
